@@ -393,9 +393,9 @@ pub fn check(ctx: &mut Ctx) {
         "tag differences between a rule and its badfilter twin are outside the domain (no tags generated for badfilter pairs)".into(),
         "a near-miss that no probe distinguishes from y is counted as undetermined, not checked".into(),
     ];
-    let n = ctx.tier.pick(40_000, 2_000_000);
+    let n = ctx.tier.pick(200_000, 2_500_000);
     drive(ctx, "mono", n, 900, &decode_mono, &check_mono);
-    let n = ctx.tier.pick(40_000, 2_000_000);
+    let n = ctx.tier.pick(150_000, 2_500_000);
     drive(ctx, "bad", n, 300, &decode_bad, &check_bad);
 }
 
